@@ -145,8 +145,21 @@ func specCheck(e *vlib.Env, w uint32, r *vlib.Rand) {
 	if base.NumINF != ninf || base.NumHops != tot {
 		bad("counts", "NumINF/NumHops wrong")
 	}
+	// necessary conditions that hold for EVERY accepted header, whatever the pointers: a
+	// cross-over needs a following hop, a first-hop-after-cross-over needs a preceding hop and
+	// segment (in particular neither is ever reported on a path without hops)
+	{
+		var b scion.Base
+		_ = b.DecodeFromBytes(b4[:])
+		if b.IsXover() && !(ch+1 < tot) {
+			bad("xover-without-next-hop", "IsXover reported although the current hop has no successor")
+		}
+		if b.IsFirstHopAfterXover() && !(ch > 0 && ci > 0) {
+			bad("fhax-without-previous", "IsFirstHopAfterXover reported at the first hop or first segment")
+		}
+	}
 	if ch >= tot || ci >= ninf {
-		return // pointers out of range: the statement is about positions on the path
+		return // pointers out of range: the remaining clauses are about positions on the path
 	}
 	// segment containing the current hop
 	seg, start := 0, 0
